@@ -1,4 +1,4 @@
-From AV Require Import Lib.Base Lib.Utf8 Lib.BytesX Model.Writer Model.Http Model.Wire.
+From AV Require Import Lib.Base Lib.Utf8 Lib.BytesX Model.Writer Model.Http Model.Wire Model.WireResp.
 Require Extraction.
 Require Import ExtrOcamlBasic.
-Extraction "model.ml" keep build client_serialize valid framing_ok run_segs init expected_rec  utf8_encode.
+Extraction "model.ml" keep build client_serialize valid framing_ok run_segs init expected_rec  utf8_encode server_prepare client_close client_waits_eof.
